@@ -58,6 +58,9 @@ def clean_env(extra=None):
     }
     if extra:
         env.update({k: v for k, v in extra.items() if v is not None})
+        for k, v in extra.items():
+            if v is None:
+                env.pop(k, None)          # None = the variable is absent, also when it has a default above
     return env
 
 
